@@ -327,7 +327,7 @@ class GriffeLoader:
 
         # First we expand wildcard imports and store the objects in a temporary `expanded` variable,
         # while also keeping track of the members representing wildcard import, to remove them later.
-        for member in obj.members.values():
+        for member in list(obj.members.values()):
             # Handle a wildcard.
             if member.is_alias and member.wildcard:  # type: ignore[union-attr]
                 package = member.wildcard.split(".", 1)[0]  # type: ignore[union-attr]
@@ -364,12 +364,19 @@ class GriffeLoader:
                         continue
 
                 # Collect every imported object.
-                expanded.extend(self._expand_wildcard(member))  # type: ignore[arg-type]
+                try:
+                    expanded.extend(self._expand_wildcard(member))  # type: ignore[arg-type]
+                except (AliasResolutionError, CyclicAliasError) as error:
+                    logger.debug("Could not expand wildcard import %s in %s: %s", member.name, obj.path, error)
+                    continue
                 to_remove.append(member.name)
 
         # Then we remove the members representing wildcard imports.
         for name in to_remove:
-            obj.del_member(name)
+            # The member can already be gone: expanding a wildcard can load or expand other modules,
+            # which in turn can expand wildcards in the current object.
+            with suppress(KeyError):
+                obj.del_member(name)
 
         # Finally we process the collected objects.
         for new_member, alias_lineno, alias_endlineno in expanded:
@@ -385,7 +392,7 @@ class GriffeLoader:
             if already_present:
                 old_member = obj.get_member(new_member.name)
                 old_lineno = old_member.alias_lineno if old_member.is_alias else old_member.lineno
-                overwrite = alias_lineno > (old_lineno or 0)  # type: ignore[operator]
+                overwrite = (alias_lineno or 0) > (old_lineno or 0)
 
             # 1. If the expanded member is an alias with a target path equal to its own path, we stop.
             #    This situation can arise because of Griffe's mishandling of (abusive) wildcard imports.
